@@ -1,15 +1,17 @@
-(* ChannelSched.v — the send side of a secure channel as an interleaving semantics (C11, C16).
+(* ChannelSchedBeforeFix.v — Model/ChannelSched.v AS IT WAS before the fixes dd66ad2 (a request is counted in
+   pendingReq before it picks the channel instance) and 5bac950 (a failed renewal hands its counter back).
+   Kept only to state what those fixes repaired (Props/C11.v, Props/C16.v: *_before_fix); nothing is proved about it
+   beyond the refutation witnesses, and the correspondence no longer refers to it.
+
+   The send side of a secure channel as an interleaving semantics (C11, C16).
 
    Threads: any number of senders (spawned at any time; a request sender on the client, or -- on a channel
    that never renews, like the server's -- a response sender) and one renewer that may renew again and again.
    One atomic step per synchronisation boundary of uasc/secure_channel.go:
 
-     sender   SendRequestWithTimeout:  reqLocker.waitIfLockThen(pendingReq.Add)
-                                                                       EGate     (enabled iff the gate is open; the gate
-                                                                                  check and the Add are ONE step: both
-                                                                                  happen under the gate's mutex)
+     sender   SendRequestWithTimeout:  reqLocker.waitIfLock()          EGate     (enabled iff the gate is open)
                                        getActiveChannelInstance()      EActive
-                                       nextRequestID                   EId
+              sendRequestWithTimeout:  nextRequestID; pendingReq.Add   ECount
               sendAsyncWithTimeout:    instance.Lock()                 ELockI    (enabled iff the instance is unlocked)
                                        per chunk: number it, Write     EChunk    (numbering happens under the instance
                                                                                   lock; one Write per chunk on the one
@@ -24,8 +26,7 @@
                                        nextRequestID                   ERenCopy
                                        send the OPN on the new one     ERenOpn
               handleOpenSecureChannelResponse: activeInstance = new    ERenInstall
-              (the request fails / times out instead: the counter
-               of the new instance is handed back to the old one)      ERenFail
+              (the request fails / times out instead)                  ERenFail
               deferred Unlock (old), reqLocker.unlock()                ERenUnlock
 
    The wire is the list of chunks in the order of the Write calls (kept newest first in `wire_rev`).
@@ -44,12 +45,11 @@ Inductive owner := OwnS (t : tid) | OwnR.
 Record chunk := Chunk {
   c_seq : Z; c_req : Z; c_final : bool; c_opn : bool;
   c_owner : owner;          (* ghost: who wrote it *)
-  c_inst : iid;             (* ghost: the instance (token) that numbered and secured it *)
-  c_act : iid }.            (* ghost: the active instance at the moment it was written *)
+  c_inst : iid }.           (* ghost: the instance (token) that numbered and secured it *)
 
 Inductive spc :=
 | SStart (n : nat)                         (* message of n+1 chunks *)
-| SPassed (n : nat)                        (* counted in pendingReq, no instance yet *)
+| SPassed (n : nat)
 | SHasInst (n : nat) (i : iid)
 | SCounted (n : nat) (i : iid) (id : Z)
 | SWriting (n : nat) (i : iid) (id : Z) (k : nat)   (* holds the lock of i; k chunks written, k <= n *)
@@ -107,14 +107,14 @@ Definition init (seq0 req0 : Z) : st :=
 
 Inductive ev :=
 | ESpawn (n : nat)
-| EGate (t : tid) | EActive (t : tid) | EId (t : tid) | ELockI (t : tid) | EChunk (t : tid)
+| EGate (t : tid) | EActive (t : tid) | ECount (t : tid) | ELockI (t : tid) | EChunk (t : tid)
 | EUnlockI (t : tid) | EDone (t : tid)
 | ERenStart | ERenGate | ERenDrain | ERenLock | ERenCopy | ERenOpn | ERenInstall | ERenFail | ERenUnlock.
 
 (* number one chunk on instance i and write it *)
 Definition emit (s : st) (i : iid) (id : Z) (final opn : bool) (o : owner) : st :=
   let q := go_nextSequenceNumber (iseq s i) in
-  set_wire (set_iseq s (updI (iseq s) i q)) (Chunk q id final opn o i (active s) :: wire_rev s).
+  set_wire (set_iseq s (updI (iseq s) i q)) (Chunk q id final opn o i :: wire_rev s).
 
 Definition sstep (s : st) (t : tid) (f : spc -> option (st * spc)) : option st :=
   match nth_error (ss s) t with
@@ -128,14 +128,12 @@ Definition sstep (s : st) (t : tid) (f : spc -> option (st * spc)) : option st :
 Definition step (s : st) (e : ev) : option st :=
   match e with
   | ESpawn n => Some (set_ss s (ss s ++ [SStart n]))
-  | EGate t => sstep s t (fun pc => match pc with
-                                   | SStart n => if gate s then None else Some (set_pending s (S (pending s)), SPassed n)
-                                   | _ => None end)
+  | EGate t => sstep s t (fun pc => match pc with SStart n => if gate s then None else Some (s, SPassed n) | _ => None end)
   | EActive t => sstep s t (fun pc => match pc with SPassed n => Some (s, SHasInst n (active s)) | _ => None end)
-  | EId t => sstep s t (fun pc => match pc with
-                                 | SHasInst n i => let id := go_nextRequestID (next_req s) in
-                                                   Some (set_next_req s id, SCounted n i id)
-                                 | _ => None end)
+  | ECount t => sstep s t (fun pc => match pc with
+                                    | SHasInst n i => let id := go_nextRequestID (next_req s) in
+                                                      Some (set_pending (set_next_req s id) (S (pending s)), SCounted n i id)
+                                    | _ => None end)
   | ELockI t => sstep s t (fun pc => match pc with
                                     | SCounted n i id => match ilock s i with
                                                          | None => Some (set_ilock s (updI (ilock s) i (Some (OwnS t))), SWriting n i id 0%nat)
@@ -175,7 +173,7 @@ Definition step (s : st) (e : ev) : option st :=
                    | ROpnSent i j => Some (set_r (set_active s j) (RInstalled i j))
                    | _ => None end
   | ERenFail => match r s with
-                | ROpnSent i j => Some (set_r (set_iseq s (updI (iseq s) i (iseq s j))) (RFailed i j))
+                | ROpnSent i j => Some (set_r s (RFailed i j))
                 | _ => None end
   | ERenUnlock => match r s with
                   | RInstalled i j | RFailed i j => Some (set_r (set_gate (set_ilock s (updI (ilock s) i None)) false) RIdle)
@@ -217,25 +215,23 @@ Fixpoint contiguous_rev (w : list chunk) : bool :=
   | _ => true
   end.
 
+(* ---- the runs on which the renewal protocol works as intended ---- *)
+
+Definition in_window (pc : spc) : bool := match pc with SPassed _ | SHasInst _ _ => true | _ => false end.
+
+(* (a) when the renewer finds the request counter drained, no sender is between "passed the gate" and "counted";
+   (b) a renewal whose OPN has been written does not fail *)
+Definition renew_ok (s : st) (e : ev) : bool :=
+  match e with
+  | ERenDrain => negb (existsb in_window (ss s))
+  | ERenFail => false
+  | _ => true
+  end.
+
 (* projection compared with the frames captured on the real connection *)
 Definition wire_obs (s : st) : list (Z * Z * bool * bool) :=
   map (fun c => (c_seq c, c_req c, c_final c, c_opn c)) (wire s).
 
-(* comparison with the harness: full (seq, request id, final, opn) or, for response senders whose request ids are
-   chosen by the caller, only (seq, final) *)
-Fixpoint obs_eqb (full : bool) (a b : list (Z * Z * bool * bool)) : bool :=
-  match a, b with
-  | [], [] => true
-  | (s1, r1, f1, o1) :: a', (s2, r2, f2, o2) :: b' =>
-      (s1 =? s2) && (negb full || ((r1 =? r2) && Bool.eqb o1 o2)) && Bool.eqb f1 f2 && obs_eqb full a' b'
-  | _, _ => false
-  end.
-
-Definition schedule_agrees (full : bool) (seq0 req0 : Z) (evs : list ev) (observed : list (Z * Z * bool * bool)) : bool :=
-  match run evs (init seq0 req0) with
-  | Some s => obs_eqb full (wire_obs s) observed
-  | None => false
-  end.
 
 (* C16: the receiver side of a renewal.  The server re-keys its ONE instance in place when it handles the renewal
    request, so from then on it can only verify chunks secured by the newest token: a chunk is accepted iff no chunk of
@@ -245,7 +241,3 @@ Fixpoint tokens_monotone_rev (w : list chunk) : bool :=
   | c :: ((p :: _) as rest) => (c_inst p <=? c_inst c)%nat && tokens_monotone_rev rest
   | _ => true
   end.
-
-(* what the client guarantees whatever happens to the renewal: no chunk is secured by an instance older than the one
-   that was installed (active) when it was written *)
-Definition not_superseded (c : chunk) : bool := (c_act c <=? c_inst c)%nat.
